@@ -14,6 +14,7 @@ import (
 	"math/rand/v2"
 	"os"
 	"path/filepath"
+	"runtime"
 	"sort"
 	"strconv"
 	"strings"
@@ -454,4 +455,28 @@ func startHeartbeat() {
 			}
 		}()
 	})
+}
+
+// Patient stretches a wall-clock deadline of the "this must happen within d" kind by how overloaded the machine is
+// (1-minute load average per CPU, read at the call), so that a deadline that only fires on a violation does not fire
+// because the process was starved. Deadlines below 5 s are polling intervals or "must not happen" windows and are left alone.
+func Patient(d time.Duration) time.Duration {
+	if d < 5*time.Second {
+		return d
+	}
+	f := 1.0
+	if b, err := os.ReadFile("/proc/loadavg"); err == nil {
+		if fs := strings.Fields(string(b)); len(fs) > 0 {
+			if l, err := strconv.ParseFloat(fs[0], 64); err == nil {
+				f = 2 * l / float64(runtime.NumCPU())
+			}
+		}
+	}
+	if f < 1 {
+		f = 1
+	}
+	if f > 40 {
+		f = 40
+	}
+	return time.Duration(float64(d) * f)
 }
